@@ -113,6 +113,109 @@ CheckRoundtrip(i) ==
                             THEN Report(i, "rt-respelled", [fe |-> r.fe, expected |-> n]) /\ FALSE
                             ELSE Report(i, "rt-exact", [fe |-> r.fe, expected |-> n]) /\ FALSE
 
+\* ---- sub-entry points: Value::from_str, Key::from_str, Key::parse (C01, C04) ----
+ResOf(ok) == IF ok THEN "ok" ELSE "err"
+WholeValue(t) == LET v == ValueAt(t, 1) IN IF v.ok /\ v.i = Len(t) + 1 THEN [ok |-> TRUE, v |-> v.v] ELSE [ok |-> FALSE, v |-> Dummy]
+WholeKey(t) == LET k == SimpleKey(t, 1) IN IF k.ok /\ k.i = Len(t) + 1 THEN [ok |-> TRUE, v |-> k.v] ELSE [ok |-> FALSE, v |-> [s |-> <<>>, sp |-> NoSpan]]
+CheckValue(i) ==
+  LET e == Ev[i]
+      pv == WholeValue(e.text)     \* Value::from_str takes exactly one `val`, without surrounding whitespace
+      pk == WholeKey(e.text)
+      pp == ParseKeyPathAll(e.text)
+  IN /\ IF e.value.res = ResOf(pv.ok) THEN TRUE ELSE Report(i, "value-verdict", [spec |-> ResOf(pv.ok), impl |-> e.value.res]) /\ FALSE
+     /\ (pv.ok /\ e.value.res = "ok") =>
+          IF SameV(pv.v, e.value.tree, TRUE) THEN TRUE ELSE Report(i, "value-tree", [expected |-> pv.v]) /\ FALSE
+     /\ IF e.key.res = ResOf(pk.ok) THEN TRUE ELSE Report(i, "key-verdict", [spec |-> ResOf(pk.ok), impl |-> e.key.res]) /\ FALSE
+     /\ (pk.ok /\ e.key.res = "ok") =>
+          IF e.key.tree.v = pk.v.s THEN TRUE ELSE Report(i, "key-tree", [expected |-> pk.v.s]) /\ FALSE
+     /\ IF e.keypath.res = ResOf(pp.ok) THEN TRUE ELSE Report(i, "keypath-verdict", [spec |-> ResOf(pp.ok), impl |-> e.keypath.res]) /\ FALSE
+     /\ (pp.ok /\ e.keypath.res = "ok") =>
+          IF /\ Len(e.keypath.tree.v) = Len(pp.v)
+             /\ \A j \in 1..Len(pp.v) : e.keypath.tree.v[j].v = pp.v[j].s
+          THEN TRUE ELSE Report(i, "keypath-tree", [expected |-> [j \in 1..Len(pp.v) |-> pp.v[j].s]]) /\ FALSE
+
+\* ---- date-times: standalone parser, document parser, printer (C12) ----
+SameDt(s, m) == m.k = "dt" /\ m.date = s.date /\ m.time = s.time /\ m.off.t = s.off.t /\ m.off.m = s.off.m
+CheckDt(i) ==
+  LET e == Ev[i]
+      p == ParseDatetime(e.text)
+  IN /\ IF e.std.res = ResOf(p.ok) THEN TRUE ELSE Report(i, "dt-std-verdict", [spec |-> ResOf(p.ok), impl |-> e.std.res]) /\ FALSE
+     /\ IF e.doc.res = ResOf(p.ok) THEN TRUE ELSE Report(i, "dt-doc-verdict", [spec |-> ResOf(p.ok), impl |-> e.doc.res]) /\ FALSE
+     /\ (p.ok /\ e.std.res = "ok") => IF SameDt(p.v, e.std.tree) THEN TRUE ELSE Report(i, "dt-std-fields", [expected |-> p.v]) /\ FALSE
+     /\ (p.ok /\ e.doc.res = "ok") => IF SameDt(p.v, e.doc.tree) THEN TRUE ELSE Report(i, "dt-doc-fields", [expected |-> p.v]) /\ FALSE
+     \* the printer: only judged for values the specification accepts (others are already violations above)
+     /\ (p.ok /\ (e.std.res = "ok" \/ e.doc.res = "ok")) =>
+          LET q == ParseDatetime(e.printed) IN
+          /\ IF q.ok /\ SameDt(p.v, q.v) THEN TRUE ELSE Report(i, "dt-print", [printed |-> e.printed]) /\ FALSE
+          /\ IF e.re_std.res = "ok" /\ SameDt(p.v, e.re_std.tree) THEN TRUE ELSE Report(i, "dt-reparse-std", [printed |-> e.printed]) /\ FALSE
+          /\ IF e.re_doc.res = "ok" /\ SameDt(p.v, e.re_doc.tree) THEN TRUE ELSE Report(i, "dt-reparse-doc", [printed |-> e.printed]) /\ FALSE
+          /\ IF e.serde.res = "ok" /\ SameDt(p.v, e.serde.tree) THEN TRUE ELSE Report(i, "dt-serde", [printed |-> e.printed]) /\ FALSE
+
+\* ---- numbers: printed literal has the same type and value, and parses back bit-for-bit (C11) ----
+CheckNum(i) ==
+  LET e == Ev[i]
+      pv == WholeValue(e.text)
+  IN IF e.pres # "ok" THEN Report(i, "num-panic", e.route) /\ FALSE
+     ELSE /\ IF pv.ok /\ pv.v.k = e.orig.k THEN TRUE ELSE Report(i, "num-type", [route |-> e.route, text |-> e.text]) /\ FALSE
+          /\ (pv.ok /\ pv.v.k = e.orig.k) =>
+               IF (e.orig.k = "i" /\ pv.v.neg = e.orig.neg /\ pv.v.d = e.orig.d)
+                  \* the sign of a NaN that goes through serde is documented as discarded (DESIGN.md 3.5)
+                  \/ (e.orig.k = "f" /\ e.route = "toml_value_display" /\ e.orig.c = "nan" /\ pv.v.c = "nan")
+                  \/ (e.orig.k = "f" /\ pv.v.c = e.orig.c /\ pv.v.neg = e.orig.neg /\ pv.v.d = e.orig.d /\ pv.v.e = e.orig.e)
+               THEN TRUE ELSE Report(i, "num-value", [route |-> e.route, text |-> e.text, expected |-> e.orig]) /\ FALSE
+          /\ IF e.re.res = "ok" /\ (e.re.tok = e.orig_tok
+                                  \/ (e.route = "toml_value_display" /\ e.orig.k = "f" /\ e.orig.c = "nan" /\ e.re.tok \in {"fnan+", "fnan-"}))
+             THEN TRUE
+             ELSE Report(i, "num-reparse", [route |-> e.route, text |-> e.text, tok |-> e.re.tok, orig |-> e.orig_tok]) /\ FALSE
+
+\* ---- quoting (C10): every offered token is in the language of its position and decodes to s ----
+AlwaysOffered == {"basic", "default", "ml_basic", "str_to_toml_key", "str_to_toml_value", "edit_key_display",
+                  "edit_value_display", "toml_value_display"}
+CheckQuote(i) ==
+  LET e == Ev[i] IN
+  \A g \in 1..Len(e.q) :
+    LET q == e.q[g] IN
+    IF ~q.offered THEN
+      IF \E x \in 1..Len(q.style) : q.style[x] \in AlwaysOffered
+      THEN Report(i, "quote-refused", [s |-> e.s, style |-> q.style]) /\ FALSE ELSE TRUE
+    ELSE
+      LET dec == IF q.pos = "key" THEN WholeKey(q.token) ELSE WholeValue(q.token)
+          good == IF q.pos = "key" THEN dec.ok /\ dec.v.s = e.s ELSE dec.ok /\ dec.v.k = "s" /\ dec.v.v = e.s
+      IN /\ IF good THEN TRUE ELSE Report(i, "quote-token", [s |-> e.s, pos |-> q.pos, style |-> q.style, token |-> q.token]) /\ FALSE
+         /\ IF q.alone = "same" /\ q.indoc = "same" THEN TRUE
+            ELSE Report(i, "quote-impl", [s |-> e.s, pos |-> q.pos, style |-> q.style, token |-> q.token, alone |-> q.alone, indoc |-> q.indoc]) /\ FALSE
+
+\* ---- serde integer conversions are exact or fail (C11) ----
+D(n) == NatDigits(n)
+\* range of each integer type: <<magnitude of min, max>> as decimal digit sequences
+TyRange(ty) ==
+  CASE ty = "i8" -> <<D(128), D(127)>>
+    [] ty = "u8" -> <<D(0), D(255)>>
+    [] ty = "i16" -> <<D(32768), D(32767)>>
+    [] ty = "u16" -> <<D(0), D(65535)>>
+    [] ty = "i32" -> <<<<2,1,4,7,4,8,3,6,4,8>>, <<2,1,4,7,4,8,3,6,4,7>>>>
+    [] ty = "u32" -> <<D(0), <<4,2,9,4,9,6,7,2,9,5>>>>
+    [] ty = "i64" -> <<MaxNeg, MaxPos>>
+    [] ty = "u64" -> <<D(0), MaxPos>>     \* a TOML integer never exceeds i64::MAX
+Fits(ty, lit) == IF lit.neg THEN NatLe(lit.d, TyRange(ty)[1]) ELSE NatLe(lit.d, TyRange(ty)[2])
+CheckSint(i) ==
+  LET e == Ev[i] IN
+  IF e.dir = "out" THEN
+    LET fits == I64InRange(e.lit.neg, e.lit.d) IN
+    \* lossless or rejected: a value outside i64 must fail; 128-bit types may be refused altogether (C07 judges that)
+    IF e.res = "panic" \/ (~fits /\ e.res # "err") \/ (fits /\ e.res # "ok" /\ e.ty \notin {"i128", "u128"})
+    THEN Report(i, "sint-out-verdict", [ty |-> e.ty, route |-> e.route, lit |-> e.lit, impl |-> e.res]) /\ FALSE
+    ELSE e.res = "ok" =>
+         LET p == IF e.route = "toml::Value::try_from" THEN ParseDocument(<<120, 61>> \o e.text) ELSE ParseDocument(e.text) IN
+         IF p.res = "ok" /\ \E l \in {p.tree.v[1].val} \cup (IF p.tree.v[1].val.k = "t" THEN {p.tree.v[1].val.v[1].val} ELSE {}) :
+                             l.k = "i" /\ l.neg = e.lit.neg /\ l.d = e.lit.d
+         THEN TRUE ELSE Report(i, "sint-out-value", [ty |-> e.ty, route |-> e.route, lit |-> e.lit, text |-> e.text]) /\ FALSE
+  ELSE
+    LET fits == Fits(e.ty, e.lit) IN
+    IF e.res # ResOf(fits) THEN Report(i, "sint-in-verdict", [ty |-> e.ty, route |-> e.route, lit |-> e.lit, impl |-> e.res]) /\ FALSE
+    ELSE e.res = "ok" => IF e.val.neg = e.lit.neg /\ e.val.d = e.lit.d THEN TRUE
+                         ELSE Report(i, "sint-in-value", [ty |-> e.ty, route |-> e.route, lit |-> e.lit, val |-> e.val]) /\ FALSE
+
 U1Note(i) == Ev[i].ev = "parse" /\ ParseDocument(Ev[i].text).res = "u1" => PrintT(ToJson([u1 |-> i]))
 
 CheckEvent(i) ==
@@ -120,6 +223,11 @@ CheckEvent(i) ==
     [] Ev[i].ev = "parse_bytes" -> CheckParseBytes(i)
     [] Ev[i].ev = "label" -> CheckLabel(i)
     [] Ev[i].ev = "roundtrip" -> CheckRoundtrip(i)
+    [] Ev[i].ev = "value" -> CheckValue(i)
+    [] Ev[i].ev = "dt" -> CheckDt(i)
+    [] Ev[i].ev = "num" -> CheckNum(i)
+    [] Ev[i].ev = "quote" -> CheckQuote(i)
+    [] Ev[i].ev = "sint" -> CheckSint(i)
     [] OTHER -> Report(i, "unknown-event", Ev[i].ev) /\ FALSE
 
 Init == lvl = 0 /\ idx = 0
